@@ -227,3 +227,159 @@ merge_inner_function = Contract(
 )
 merge_inner_function.opaque = {"function": {"ret": ("obj", None)}, "ir_merge": {"ret": "none", "effect": True}}
 CONTRACTS.append(merge_inner_function)
+
+# ------------------------------------------------------------------------------------------- parse.argparse_ast (C04: the parser half, whole function)
+def _c(v):
+    return ("node", "ast.Constant", {"value": v, "kind": None})
+
+
+def _kwd(arg, value):
+    return ("node", "ast.keyword", {"arg": ("lit", arg), "value": value})
+
+
+def _add_argument(name, keywords):
+    return ("node", "ast.Expr", {"value": ("node", "ast.Call", {
+        "func": ("node", "ast.Attribute", {"attr": ("lit", "add_argument"), "value": ("node", "ast.Name", {"id": ("lit", "argument_parser"), "ctx": ("node", "ast.Load", {})}),
+                                           "ctx": ("node", "ast.Load", {})}),
+        "args": ("list", [_c(("lit", "--" + name))]), "keywords": ("list", keywords)})})
+
+
+_DESC = ("node", "ast.Assign", {"targets": ("list", [("node", "ast.Attribute", {"attr": ("lit", "description"), "ctx": ("node", "ast.Store", {}),
+                                                                                 "value": ("node", "ast.Name", {"id": ("lit", "argument_parser"), "ctx": ("node", "ast.Load", {})})})]),
+                                "value": _c("str"), "type_comment": None})
+_RET_PARSER = ("node", "ast.Return", {"value": ("node", "ast.Name", {"id": ("lit", "argument_parser"), "ctx": ("node", "ast.Load", {})})})
+_TINT = _kwd("type", ("node", "ast.Name", {"id": ("lit", "int"), "ctx": ("node", "ast.Load", {})}))
+_HELP1 = _kwd("help", _c(("lit", "the first")))
+_HELP2 = _kwd("help", _c(("lit", "the second")))
+_REQ = _kwd("required", _c(("lit", True)))
+
+
+def _ap_fdef(body):
+    return ("node", "ast.FunctionDef", {"name": ("lit", "set_cli_args"), "decorator_list": ("list", []), "returns": None, "type_comment": None, "body": ("list", body),
+                                        "args": ("node", "ast.arguments", {"posonlyargs": ("list", []), "args": ("list", [_arg("argument_parser")]), "vararg": None,
+                                                                           "kwonlyargs": ("list", []), "kw_defaults": ("list", []), "kwarg": None, "defaults": ("list", [])})})
+
+
+parse_argparse = Contract(
+    "doctrans.parse:argparse_ast",
+    properties=["C04", "C16"],
+    note="an argparse function without docstring (get_docstring answers None; parse_docstring is opaque): a description assignment, two add_argument calls with literal "
+         "option names / help texts and symbolic int defaults, optionally an extra statement, and the return of the parser; parse_out_param and the recognisers are inlined",
+    cases=[
+        Case("two-options", {"function_def": _ap_fdef([_DESC, _add_argument("alpha", [_TINT, _HELP1, _REQ, _kwd("default", _c("int"))]),
+                                                       _add_argument("beta", [_TINT, _HELP2, _kwd("default", _c("int"))]), _RET_PARSER]),
+                             "function_type": None, "function_name": ("lit", "set_cli_args")}),
+        Case("extra-statement", {"function_def": _ap_fdef([_DESC, _add_argument("alpha", [_TINT, _HELP1, _REQ, _kwd("default", _c("int"))]),
+                                                           ("node", "ast.Expr", {"value": ("node", "ast.Name", {"id": ("lit", "extra"), "ctx": ("node", "ast.Load", {})})}), _RET_PARSER]),
+                                 "function_type": None, "function_name": ("lit", "set_cli_args")}),
+    ],
+    ensures=[
+        Clause("PA-head", "result['name'] == 'set_cli_args' and result['type'] == 'static' and result['doc'] == function_def.body[0].value.value",
+               note="C04: the parser's description is the summary"),
+        Clause("PA-options-2", "list(result['params'].keys()) == ['alpha', 'beta']", when=["two-options"], note="C04: one parameter per add_argument call, in order, named after the option"),
+        Clause("PA-alpha", "result['params']['alpha']['typ'] == 'int' and result['params']['alpha']['doc'] == 'the first' "
+                           "and result['params']['alpha']['default'] == function_def.body[1].value.keywords[3].value.value and typeis(result['params']['alpha']['default'], 'int')",
+               note="C04: a required int option: plain type, its help text, its default with value and type"),
+        Clause("PA-beta", "result['params']['beta']['typ'] == 'Optional[int]' and result['params']['beta']['default'] == function_def.body[2].value.keywords[2].value.value",
+               when=["two-options"], note="a not-required option is Optional[...]; defaults do not leak between options"),
+        Clause("PA-extra", "list(result['params'].keys()) == ['alpha'] and len(result['_internal']['body']) == 2 and result['_internal']['body'][0] is function_def.body[2] "
+                           "and result['_internal']['body'][1] is function_def.body[3]", when=["extra-statement"],
+               note="C16: statements that are neither the description nor an add_argument call are carried (the return included)"),
+        Clause("PA-frame", "unchanged(function_def, old_function_def)", note="C13: the tree is not modified"),
+    ],
+    canaries=["result['params'] == {}"],
+)
+parse_argparse.opaque = {"get_docstring": {"ret": "none"}, "parse_docstring": {"ret": ("obj", None)}}
+CONTRACTS.append(parse_argparse)
+
+# ------------------------------------------------------------------------------------------- law: a whole description through argparse (C04-L)
+argparse_function_roundtrip = Contract(
+    "vf.contracts.laws:argparse_function_roundtrip",
+    properties=["C04", "C05"],
+    note="C04, deductively, for a description with a required int option and an Optional[int] option (literal names / prose, symbolic defaults) and a symbolic summary: "
+         "emit.argparse_function followed by parse.argparse_ast, both real and inlined down to param2argparse_param / parse_out_param; the function's own docstring text is "
+         "opaque and get_docstring answers None (so the docstring statement is carried as a body statement, which the clauses do not look at)",
+    cases=[Case("two-options", {"ir": ("dict", {"name": "str", "doc": "str", "returns": None, "params": ("dict", {
+        "alpha": ("dict", {"typ": ("lit", "int"), "doc": ("lit", "the first"), "default": "int"}),
+        "beta": ("dict", {"typ": ("lit", "Optional[int]"), "doc": ("lit", "the second"), "default": "int"})})})},
+                assume=["not (len(ir['doc']) > 2 and ir['doc'][0] == ir['doc'][-1] and ir['doc'][0] in ('\"', \"'\"))"])],
+    ensures=[
+        Clause("ART-names", "list(result['params'].keys()) == ['alpha', 'beta']", note="C04: names and order"),
+        Clause("ART-alpha", "result['params']['alpha']['typ'] == 'int' and result['params']['alpha']['doc'] == 'the first' and result['params']['alpha']['default'] == old_ir['params']['alpha']['default'] "
+                            "and typeis(result['params']['alpha']['default'], 'int')", note="C04: type, prose and default (value and type) of a required option"),
+        Clause("ART-beta", "result['params']['beta']['typ'] == 'Optional[int]' and result['params']['beta']['doc'] == 'the second' and result['params']['beta']['default'] == old_ir['params']['beta']['default']",
+               note="C04: the same for an optional option"),
+        Clause("ART-summary", "result['doc'] == old_ir['doc']", note="the summary travels as the parser's description"),
+        Clause("ART-frame", "unchanged(ir, old_ir)", note="C13"),
+    ],
+    canaries=["result['params']['alpha']['default'] == 0"],
+)
+argparse_function_roundtrip.opaque = {"docstring": {"ret": "str"}, "indent": {"ret": "str"}, "get_docstring": {"ret": "none"}, "parse_docstring": {"ret": ("obj", None)}}
+CONTRACTS.append(argparse_function_roundtrip)
+
+# ------------------------------------------------------------------------------------------- law: a whole description through a class (C02-L, attribute half)
+_CLRT_BIG = Case("three-params+return", {"ir": ("dict", {"name": "str", "doc": "str", "params": ("dict", {
+    "alpha": ("dict", {"typ": ("lit", "int"), "doc": "str", "default": "int"}),
+    "beta": ("dict", {"typ": ("lit", "bool"), "doc": "str", "default": "bool"}),
+    "gamma": ("dict", {"typ": ("lit", "int"), "doc": "str"})}),
+    "returns": ("dict", {"return_type": ("dict", {"typ": ("lit", "int"), "doc": "str", "default": "int"})})})})
+_CLRT_BIG.tier = "thorough"  # ~1500 paths, 7440 obligations, five to six minutes
+
+class_roundtrip = Contract(
+    "vf.contracts.laws:class_roundtrip",
+    properties=["C02", "C05", "C13"],
+    note="C02, deductively, for a description with an int parameter (symbolic default), a bool parameter (symbolic default), an int parameter without default and a return entry: "
+         "emit.class_ followed by parse.class_, both real and inlined; to_docstring / to_code are opaque and get_docstring answers None, so what comes back is what the annotated "
+         "attributes carry: names, order, defaults, the return entry as `return_type` (types and prose travel through the opaque docstring / renderer)",
+    cases=[Case("one-param+return", {"ir": ("dict", {"name": "str", "doc": "str", "params": ("dict", {
+        "alpha": ("dict", {"typ": ("lit", "int"), "doc": "str", "default": "int"})}),
+        "returns": ("dict", {"return_type": ("dict", {"typ": ("lit", "int"), "doc": "str", "default": "int"})})})}),
+           Case("bool+nodefault", {"ir": ("dict", {"name": "str", "doc": "str", "returns": None, "params": ("dict", {
+               "beta": ("dict", {"typ": ("lit", "bool"), "doc": "str", "default": "bool"}),
+               "gamma": ("dict", {"typ": ("lit", "int"), "doc": "str"})})})}),
+           _CLRT_BIG],
+    use_contract_for=["doctrans.defaults_utils:needs_quoting", "doctrans.defaults_utils:extract_default"],
+    ensures=[
+        Clause("CLRT-names", "list(result['params'].keys()) == ['alpha', 'beta', 'gamma']", when=["three-params+return"], note="C02: names and order; the return entry is not a parameter"),
+        Clause("CLRT-names-1", "list(result['params'].keys()) == ['alpha'] and result['params']['alpha']['default'] == old_ir['params']['alpha']['default'] "
+                               "and typeis(result['params']['alpha']['default'], 'int')", when=["one-param+return"], note="C02: the parameter with its default (value and type); the return entry is not a parameter"),
+        Clause("CLRT-names-2", "list(result['params'].keys()) == ['beta', 'gamma'] and result['params']['beta']['default'] == old_ir['params']['beta']['default'] "
+                               "and typeis(result['params']['beta']['default'], 'bool') and result['params']['gamma']['default'] == 0 and result['returns'] is None", when=["bool+nodefault"],
+               note="C02: order; a bool default (False included); N_class: no default -> the zero value; no return entry is invented"),
+        Clause("CLRT-defaults", "result['params']['alpha']['default'] == old_ir['params']['alpha']['default'] and typeis(result['params']['alpha']['default'], 'int') "
+                                "and result['params']['beta']['default'] == old_ir['params']['beta']['default'] and typeis(result['params']['beta']['default'], 'bool')",
+               when=["three-params+return"], note="C02: explicit defaults with value and Python type (0 and False included)"),
+        Clause("CLRT-typ", "result['params']['alpha']['typ'] == 'int'", when=["three-params+return", "one-param+return"],
+               note="C02: the scalar type (the renderer is assumed to write a Name node as its identifier)"),
+        Clause("CLRT-typ-2", "result['params']['beta']['typ'] == 'bool' and result['params']['gamma']['typ'] == 'int'", when=["three-params+return", "bool+nodefault"]),
+        Clause("CLRT-zero", "result['params']['gamma']['default'] == 0", when=["three-params+return"], note="N_class: no default -> the zero value of the type (the one permitted change)"),
+        Clause("CLRT-return", "list(result['returns'].keys()) == ['return_type'] and result['returns']['return_type']['default'] == old_ir['returns']['return_type']['default']",
+               when=["three-params+return", "one-param+return"], note="C02: the return entry travels as the reserved attribute and comes back as the return entry"),
+        Clause("CLRT-frame", "unchanged(ir, old_ir)", note="C13: the description handed in is not modified"),
+    ],
+    canaries=["len(result['params']) == 0"],
+)
+class_roundtrip.opaque = {"to_docstring": {"ret": "str"}, "get_docstring": {"ret": "none"}, "to_code": {"ret": "str", "unparse_names": True}}
+CONTRACTS.append(class_roundtrip)
+
+# ------------------------------------------------------------------------------------------- law: a chain of two kinds (C05-L)
+chain_class_argparse = Contract(
+    "vf.contracts.laws:chain_class_argparse",
+    properties=["C05"],
+    note="C05, deductively, for one chain (class then argparse) and a description with one int parameter with a symbolic default: all four conversions real and inlined; "
+         "docstring texts are opaque and get_docstring answers None, so the chain carries what attributes and add_argument calls carry: name and default (value and type)",
+    cases=[Case("one-int-param", {"ir": ("dict", {"name": "str", "doc": "str", "returns": None, "params": ("dict", {
+        "alpha": ("dict", {"typ": ("lit", "int"), "doc": "str", "default": "int"})})})})],
+    use_contract_for=["doctrans.defaults_utils:needs_quoting", "doctrans.defaults_utils:extract_default"],
+    ensures=[
+        Clause("CH-names", "list(result['params'].keys()) == ['alpha']", note="C05: the parameter survives both hops, once"),
+        Clause("CH-default", "result['params']['alpha']['default'] == old_ir['params']['alpha']['default'] and typeis(result['params']['alpha']['default'], 'int')",
+               note="C05: with its default - value and type, zero and negatives included"),
+        Clause("CH-typ", "result['params']['alpha']['typ'] == 'int'", note="C05: and its scalar type (the renderer is assumed to write a Name node as its identifier)"),
+        Clause("CH-frame", "unchanged(ir, old_ir)"),
+    ],
+    canaries=["result['params']['alpha']['default'] == 0"],
+)
+chain_class_argparse.opaque = {"to_docstring": {"ret": "str"}, "get_docstring": {"ret": "none"}, "to_code": {"ret": "str", "unparse_names": True}, "docstring": {"ret": "str"}, "indent": {"ret": "str"},
+                               "parse_docstring": {"ret": ("obj", None)}}
+CONTRACTS.append(chain_class_argparse)
